@@ -65,6 +65,15 @@ def _flags(mask: int) -> list[bytes]:
     return [f for i, f in enumerate(ALLF) if mask >> i & 1]
 
 
+def _spell(f: bytes, k: int) -> bytes:
+    """system flags are case-insensitive: canonical, lower, upper or mixed
+    letter case, chosen by k"""
+    w = WIRE[f]
+    if not w.startswith(b'\\'):
+        return w
+    return [w, w, w.lower(), w.upper(), w.swapcase()][k % 5]
+
+
 class Msg:
     def __init__(self, uid: int, flags: set[bytes], vid: bytes,
                  date: str | None) -> None:
@@ -176,7 +185,10 @@ def run_case(case: dict[str, Any]) -> CaseOut:
             ds = '07-Feb-2015 13:%02d:%02d +0100' % (vid[0] % 60, mask % 60) \
                 if date else None
             cmd = b'APPEND ' + mbx + b' (' + b' '.join(
-                WIRE[f] for f in fl) + b') '
+                _spell(f, mask // 7 + i) for i, f in enumerate(fl)) + b') '
+            if any(_spell(f, mask // 7 + i) != WIRE[f]
+                   for i, f in enumerate(fl)):
+                out.label('flag-in-other-letter-case')
             if ds:
                 cmd += b'"' + ds.encode() + b'" '
             res = c.command(cmd + b'{%d+}' % len(m), m)
@@ -325,8 +337,13 @@ def run_case(case: dict[str, Any]) -> CaseOut:
                 fl = _flags(1 + e % 255) if e % 7 else []
                 res = c.command(pre + b'STORE ' + ws + b' ' + mode
                                 + (b'.SILENT' if silent else b'')
-                                + b' (' + b' '.join(WIRE[f] for f in fl)
+                                + b' (' + b' '.join(
+                                    _spell(f, e // 5 + i)
+                                    for i, f in enumerate(fl))
                                 + b')')
+                if any(_spell(f, e // 5 + i) != WIRE[f]
+                       for i, f in enumerate(fl)):
+                    out.label('flag-in-other-letter-case')
                 if partial_expunge:
                     nt = True
                     out.label('store-after-partial-expunge')
@@ -389,7 +406,11 @@ def run_case(case: dict[str, Any]) -> CaseOut:
                     return out
             elif base in ('copy', 'move'):
                 word = base.upper().encode()
-                res = c.command(pre + word + b' ' + ws + b' ' + other)
+                # now and then into the selected mailbox itself
+                target = cur if e % 6 == 0 else other
+                if target == cur:
+                    out.label(base + '-into-the-selected-mailbox')
+                res = c.command(pre + word + b' ' + ws + b' ' + target)
                 if not res.ok:
                     if not (over or (not uid_mode and n == 0)):
                         out.fail(f'{base}-refused',
@@ -397,7 +418,7 @@ def run_case(case: dict[str, Any]) -> CaseOut:
                         return out
                     out.label('refused-out-of-range')
                 else:
-                    dest = boxes[other]
+                    dest = boxes[target]
                     srcs = [m for m in box.msgs if m.uid in target_uids]
                     pairs = []
                     for m in srcs:
